@@ -231,7 +231,7 @@ func (ck *Checker) disciplineObligations() []*Obligation {
 		}
 		sort.Strings(names)
 		for _, g := range names {
-			out = append(out, effectsObl("discipline/global-written-only-by-init/"+g, []string{"C12", "C16"}, len(writers[g]) == 0, "package scope",
+			out = append(out, effectsObl("discipline/global-written-only-by-init/"+g, []string{"C12", "C16", "*"}, len(writers[g]) == 0, "package scope",
 				"the package-level variable "+g+" is written only by package initializers (no hidden shared mutable state)", writers[g]))
 		}
 	}
@@ -500,6 +500,72 @@ func (ck *Checker) disciplineObligations() []*Obligation {
 		sort.Strings(bad)
 		out = append(out, effectsObl("discipline/goroutine-results-handed-off-through-a-channel", []string{"C12"}, len(bad) == 0, "api.go",
 			fmt.Sprintf("every variable written by a started goroutine (%d found) is written only before a send of that goroutine, and the starter accesses it only after receiving from that channel", checked), bad))
+	}
+
+	// ---- C12/C16: the caller's writers are used by one goroutine of the pipeline only -----------------
+	{
+		usesWriter := func(root *ssa.Function) []string {
+			var hits []string
+			for f := range e.reachable(root) {
+				for _, b := range f.Blocks {
+					for _, ins := range b.Instrs {
+						ci, ok := ins.(ssa.CallInstruction)
+						if !ok {
+							continue
+						}
+						cc := ci.Common()
+						hit := false
+						if cc.IsInvoke() && cc.Method.Name() == "Write" {
+							hit = true
+						}
+						if sc := cc.StaticCallee(); sc != nil && sc.Pkg != nil {
+							pp := sc.Pkg.Pkg.Path()
+							if (pp == "fmt" && strings.HasPrefix(sc.Name(), "Fprint")) || (pp == "io" && sc.Name() == "WriteString") {
+								hit = true
+							}
+						}
+						if hit {
+							hits = append(hits, p.FuncName(f)+" at "+p.Pos(instrPos(ins)))
+						}
+					}
+				}
+			}
+			sort.Strings(hits)
+			return hits
+		}
+		var bad []string
+		writers := 0
+		for _, starter := range []*ssa.Function{bcl.Func("ParseFile"), bcl.Func("newLexer")} {
+			if starter == nil {
+				continue
+			}
+			for _, b := range starter.Blocks {
+				for _, ins := range b.Instrs {
+					g, ok := ins.(*ssa.Go)
+					if !ok {
+						continue
+					}
+					var root *ssa.Function
+					if mc, ok := g.Call.Value.(*ssa.MakeClosure); ok {
+						root, _ = mc.Fn.(*ssa.Function)
+					} else if sc := g.Call.StaticCallee(); sc != nil {
+						root = sc
+					}
+					if root == nil {
+						bad = append(bad, "goroutine with an unknown body at "+p.Pos(instrPos(ins)))
+						continue
+					}
+					if hits := usesWriter(root); len(hits) > 0 {
+						writers++
+						if writers > 1 {
+							bad = append(bad, "a second goroutine ("+p.FuncName(root)+") writes to a writer: "+hits[0])
+						}
+					}
+				}
+			}
+		}
+		out = append(out, effectsObl("discipline/one-goroutine-uses-the-writers", []string{"C12", "C16"}, len(bad) == 0, "api.go",
+			"of the goroutines the pipeline starts, at most one (the parser) can reach a Write, fmt.Fprint* or io.WriteString call: the caller's output and log writers are never used by two goroutines at once", bad))
 	}
 
 	// ---- C16/C12/C15: goroutines are started only by the file pipeline ---------------------------------
